@@ -180,7 +180,8 @@ def expected(scn, proc_log=()):
                 status = 'FAILED'
                 break
         own.append({'status': status, 'started': started,
-                    'codes': None if raised else codes, 'raised': raised})
+                    'codes': None if raised else codes, 'raised': raised,
+                    'codes_before_failure': codes})
     final = {}
     for i, tsk in enumerate(scn['tasks']):
         if any(final[j] in ('FAILED', 'SKIPPED') for j in tsk['hard']):
@@ -486,6 +487,15 @@ def oracle(scn, res):
             if bad:
                 viol.append(('output-differs', 'stderr-differs',
                              dict(bad, task=name)))
+        if own[i]['raised']:
+            # a command could not be started: the codes recorded are those of
+            # the commands that ran before it (none recorded = none ran)
+            want = own[i]['codes_before_failure']
+            got = ent.get('return_codes')
+            if got != want and not (got is None and not want):
+                viol.append(('return-codes',
+                             'return-codes-differ:after-a-start-up-failure',
+                             {'task': name, 'got': got, 'want': want}))
         if not own[i]['raised']:
             if ent.get('return_codes') != own[i]['codes']:
                 viol.append(('return-codes', 'return-codes-differ',
